@@ -231,3 +231,41 @@ package index
 //@   ensures i.fileIdx >= len(i.ends) ==> result == nil
 //@   ensures forall k int :: 0 <= k && k < len(result) ==> result[k] != nil && result[k].file == FI && FS + i.leftPad + result[k].runeOffset + i.rightPad <= i.ends[FI]
 //@   ensures FI < len(i.ends) ==> hitFloor <= max(old(hitFloor), i.ends[FI] - 1)
+
+// ---------------------------------------------------------------------------
+// C01: document-predicate atoms (repository, branch, language, metadata
+// filters are all docMatchTree nodes over a predicate on the document id)
+// ---------------------------------------------------------------------------
+
+// The predicate of a docMatchTree is a read-only function of the document id
+// (docPred, abstract: what it decides is fixed when the tree is built).
+//@ abstract func docPred(t *docMatchTree, doc int) bool
+//@ func index.docMatchTree.predicate(docID)
+//@   ensures result == docPred(recv, docID)
+//@   assigns nothing
+
+// nextDoc: the first document at or after the cursor that the predicate
+// accepts; every document it skips is rejected by the predicate; no document
+// left means MaxUint32.
+//@ pure func dmStart(t *docMatchTree) int = ite(t.firstDone, t.docID + 1, 0)
+//@ func index.(*docMatchTree).nextDoc
+//@   requires t != nil && t.predicate != nil && t.docID < 4294967295
+//@   loop 1:
+//@     invariant dmStart(t) <= i && i <= 4294967295
+//@     invariant forall k int :: dmStart(t) <= k && k < i && k < t.numDocs ==> !docPred(t, k)
+//@     decreases t.numDocs - i
+//@   ensures result == 4294967295 || (dmStart(t) <= result && result < t.numDocs && docPred(t, result))
+//@   ensures forall k int :: dmStart(t) <= k && k < result && k < t.numDocs ==> !docPred(t, k)
+//@   assigns nothing
+
+// matches: decided at every cost level, by the predicate on the current document.
+//@ func index.(*docMatchTree).matches
+//@   requires t != nil && t.predicate != nil && cp != nil
+//@   ensures docPred(t, cp.idx) ==> result == 1
+//@   ensures !docPred(t, cp.idx) ==> result == 2
+//@   assigns nothing
+
+//@ func index.(*docMatchTree).prepare
+//@   requires t != nil
+//@   ensures t.docID == doc && t.firstDone
+//@   assigns t.docID, t.firstDone
